@@ -86,6 +86,13 @@ func (m *fmMod) initGenesis(e *lib.Env) lib.Outcome {
 	gs := farmtypes.GenesisState{Params: fmGo(m.p), Sequence: m.k[e].GetSequence(e.Ctx)}
 	return e.Try(func(ctx sdk.Context) error { farm.InitGenesis(ctx, *m.k[e], gs); return nil })
 }
+func (m *fmMod) genesisStages(e *lib.Env) (int, int) {
+	gs := farmtypes.GenesisState{Params: fmGo(m.p), Sequence: m.k[e].GetSequence(e.Ctx)}
+	vg, _ := errCode(func() error { return farmtypes.ValidateGenesis(gs) })
+	cctx, _ := e.Ctx.CacheContext()
+	sp, _ := errCode(func() error { return m.k[e].SetParams(cctx, gs.Params) })
+	return vg, sp
+}
 func (m *fmMod) stored(e *lib.Env) string { return fmTerm(m.k[e].GetParams(e.Ctx)) }
 
 var fmRewardDenoms = []string{"btc", "eth", "usdt"}
